@@ -26,6 +26,9 @@ MUTG = [('out-of-row-check-dropped', RA, "                return self._data[\n  
 MUTG2 = [('result-keeps-the-old-lengths', RA, "            return RaggedArray(sliced_data, lengths=new_lengths)", "            return RaggedArray(sliced_data, lengths=self.lengths)")]
 
 
+MUTG3 = [('row-slice-length-from-the-data', RA, "                first_dimension_iis = _slice_to_list(\n                    first_dimension, length=len(self.lengths))\n                # if the second dimension is a slice, determines the 2d indices\n                # from the lengths in the ragged dimension\n                if isinstance(second_dimension, slice):\n                    iis, new_lengths  = _get_iis_from_slices(", "                first_dimension_iis = _slice_to_list(\n                    first_dimension, length=len(self.lengths) - 1)\n                # if the second dimension is a slice, determines the 2d indices\n                # from the lengths in the ragged dimension\n                if isinstance(second_dimension, slice):\n                    iis, new_lengths  = _get_iis_from_slices(")]
+
+
 def index_units(exclude=()):
     units = [Unit('ra-index', RI.registry(), mutants=MUT + MUTL)]
     units.append(Unit('ra-starts', RI.registry_starts(), mutants=[('starts-not-shifted', RA, "        return np.append([0], np.cumsum(self.lengths)[:-1])", "        return np.cumsum(self.lengths)")]))
@@ -36,6 +39,9 @@ def index_units(exclude=()):
     units.append(Unit('ra-getitem[(rows, cols) paired]', RI.registry_getitem('paired', exclude=exclude), keys=[RI.F + 'RaggedArray.__getitem__'], mutants=MUTG, budget=20))
     units.append(Unit('ra-getitem[rows, lo:hi]', RI.registry_getitem('rows-slice', False, False, exclude=exclude), keys=[RI.F + 'RaggedArray.__getitem__'], mutants=MUTG2, budget=20))
     units.append(Unit('ra-getitem[rows, :]', RI.registry_getitem('rows-slice', True, True, exclude=exclude), keys=[RI.F + 'RaggedArray.__getitem__'], budget=20))
+    units.append(Unit('ra-getitem[lo:hi, lo:hi]', RI.registry_getitem('slice-slice', False, False, exclude=exclude, row_none=(False, False)), keys=[RI.F + 'RaggedArray.__getitem__'], mutants=MUTG3, budget=20))
+    units.append(Unit('ra-getitem[:, lo:hi]', RI.registry_getitem('slice-slice', False, False, exclude=exclude, row_none=(True, True)), keys=[RI.F + 'RaggedArray.__getitem__'], budget=20))
+    units.append(Unit('ra-getitem[lo:hi, :]', RI.registry_getitem('slice-slice', True, True, exclude=exclude, row_none=(False, False)), keys=[RI.F + 'RaggedArray.__getitem__'], budget=20))
     for v in itertools.product((False, True), repeat=3):
         name = 'ra-2d-slice[%s]' % ','.join(k for k, isnone in zip(('start', 'stop', 'step'), v) if not isnone)
         units.append(Unit(name, RI.registry_iis(*v, exclude=exclude), mutants=(MUTI if v == (False, False, False) else MUTI_NONE if v == (True, True, True) else ()), budget=15))
@@ -56,7 +62,7 @@ def run(tier, seed, update_lock=False):
               args=['--prop=C05', '--exclude=' + ','.join(R.excluded())])
     R.report_known('ra.py')
     resolve_failures(R, 'ra.py', lambda f: None)
-    R.clauses = [{'clause': 'RaggedArray.__getitem__ itself, against the list of rows row(t)[j] := _data[PS(t)+j]: a[(r, c)] with index arrays returns row(r\'_k)[c\'_k] for every pair and raises IndexError exactly when an element lies outside its row; a[rows, lo:hi] and a[rows, :] with a row array return a ragged array whose p-th row is row(rows[p])[lo:hi] (lengths, order and content)', 'status': 'proved (SMT on the real method, composed from the helper contracts; the constructor of the result is an ASSUMED contract exercised by the bounded driver)'},
+    R.clauses = [{'clause': 'RaggedArray.__getitem__ itself, against the list of rows row(t)[j] := _data[PS(t)+j]: a[(r, c)] with index arrays returns row(r\'_k)[c\'_k] for every pair and raises IndexError exactly when an element lies outside its row; a[rows, lo:hi], a[rows, :] with a row array and a[lo:hi, lo:hi], a[:, lo:hi], a[lo:hi, :] with a row slice return a ragged array whose p-th row is the Python slice of the p-th selected row (lengths, order and content)', 'status': 'proved (SMT on the real method, composed from the helper contracts; the constructor of the result is an ASSUMED contract exercised by the bounded driver)'},
                  {'clause': 'two-dimensional slices a[rows, lo:hi:step] (positive step; each None-ness variant of the slice): _get_iis_from_slices returns, for the p-th selected row, exactly the positions range(*slice(lo,hi,step).indices(lengths[rows[p]])) of that row - new_lengths[p] is their number, block p of the column indices lists them in order, the row index over block p is rows[p]; `lengths` is unchanged. _get_iis_from_list is the row-major cartesian product', 'status': 'proved (SMT on the real helpers; loop invariant + two induction lemmas about the block offsets)'},
                  {'clause': 'paired (row, column) indices: _convert_from_2d / _handle_negative_indices give flat[k] = starts[r\'] + c\' inside row r\' (never a neighbouring row), raise IndexError exactly when an element lies outside its row, and leave the caller\'s index arrays unchanged; _slice_to_list visits the rows Python slicing visits (bounds in [-n, n], positive step)', 'status': 'proved (SMT on the real helpers, symbolic lengths); RaggedArray.starts = prefix sums of the lengths (induction lemma), which is the helpers\' precondition'},
                  {'clause': 'every read in the index grammar equals the read of the list of rows; element access outside a row raises IndexError', 'status': 'bounded (exhaustive small scope); listed findings excluded by witness class'},
